@@ -135,6 +135,26 @@ def run_search(repo: Repo, res: Result) -> None:
                 n += 1
                 ok = ev.what == m.popped
                 res.add("C01.S", repo.key(fi, stmt_of(ev.call)) + " [mark]", ok, "popped node marked visited" if ok else f"`{ev.what}` marked visited instead of the popped node", where(fi, ev.call), kind="structural")
+        # two visited disciplines must not be mixed on one set: a node marked when it is *pushed* and a pop-time test that skips
+        # marked nodes mean that nothing that is pushed is ever expanded - and a node of the start list that is reached through an
+        # edge before its own turn is marked by that push and then skipped, so its edges are never looked at
+        for vs in m.visited_sets:
+            push_marks = [e for e in m.events if e.kind == "mark" and e.in_neighbour_loop and e.receiver == vs and e.what != m.popped and any(p.kind == "push" and p.what == e.what for p in m.events)]
+            if not push_marks:
+                continue
+            for c in (m.neighbour_calls or [m.neighbour_call]):
+                reached = S.conds_formula(S.control_conditions(fi.node, c), m.subst)
+                a_ = f"{m.popped} in {vs}"
+                if a_ in atoms_of(reached) and implies(reached, f_not(atom(a_))):
+                    n += 1
+                    pm = push_marks[0]
+                    res.add(
+                        "C01.S", repo.key(fi, stmt_of(pm.call)) + " [marked when pushed, skipped when popped]", False,
+                        f"`{norm(pm.call)}` marks `{pm.what}` when it is pushed, and a popped node that is in `{vs}` is skipped before `{norm(c)}`: a pushed node is never expanded, and a node of the start list `{m.worklist}` that is reached through an edge "
+                        f"before its own turn is marked by the push and never analysed - its imports vanish (and whether they vanish depends on the other imports: monotonicity)",
+                        where(fi, pm.call), kind="dominance",
+                    )
+                    break
         # every neighbour of an expanded node and every node of the worklist is examined: the searches collect all pairs / all sub
         # modules (none is an existence query), so leaving the neighbour iteration or the node loop on a condition skips edges -
         # and whether an edge is skipped then depends on which other edges exist (monotonicity)
